@@ -487,7 +487,7 @@ func execC19Raw(t *testing.T, c C19Raw) (v Verdict) {
 		}
 		wellFormed := refOK && c.Mode != "http-nobody" && ref.GetHeader() != nil && ref.GetHeader().GetSource() != ""
 		var got *goat.Rpc
-		if wellFormed && rec.Code == 200 {
+		if wellFormed && rec.Code/100 == 2 {
 			// ServeHTTP returns as soon as the reader has taken the envelope; give the reader time to report it
 			select {
 			case got = <-delivered:
@@ -501,7 +501,7 @@ func execC19Raw(t *testing.T, c C19Raw) (v Verdict) {
 			}
 		}
 		if wellFormed {
-			if rec.Code != 200 {
+			if rec.Code/100 != 2 {
 				v.failf("a well-formed envelope was answered with HTTP %d", rec.Code)
 			} else if got == nil || !proto.Equal(got, &ref) {
 				v.failf("a well-formed envelope was not delivered unchanged")
